@@ -22,6 +22,10 @@ type Obl struct {
 	Note   string
 	Expect string // "unsat" (default) or "sat" for vacuity checks
 	Cands  []string // candidate witnesses for existential goals: integer locals at the point of the obligation
+	Secondary []string // the candidates among Cands that are offered only when the goal has no skolem constants
+	Mark   int      // value of the fresh-symbol counter when the obligation was created (0: unknown)
+	CutLo, CutHi int // "loop N local": quantified facts learnt in (CutLo, CutHi] (after entry, before the loop) are left out
+	Hi     int      // symbols numbered in (Mark, Hi] were created by later program text and are invisible (0: no upper end)
 }
 
 type def struct {
@@ -43,6 +47,7 @@ type LoopInfo struct {
 	hdrHeap  map[string]string
 	variant  []string
 	backSts  []*State
+	backMarks []int // fresh-symbol counter at each back edge
 	rangeIdx *ssa.Alloc
 	mark     int // value of the fresh-symbol counter when the loop was entered
 }
@@ -55,6 +60,13 @@ type VC struct {
 	decls    []string
 	declSet  map[string]bool
 	defs     []def
+	defAt    []int
+	assertAt []int
+	atOverride int
+	entryMark  int
+	loopAssigned map[*ssa.Alloc]bool
+	snapTypes  map[string]bool // element types whose addresses were stored in pointer variables (see Store)
+	modelNotes map[string]bool // modelling assumptions made while generating (reported in the evidence)
 	asserts  []string // global facts: axioms of spec functions, string literals ...
 	axiomSet map[string]bool
 	obls     []*Obl
@@ -104,6 +116,7 @@ type VC struct {
 type retRec struct {
 	st   *State
 	vals []Val
+	pos  token.Pos
 }
 
 // State is the symbolic state at a program point.
@@ -139,6 +152,8 @@ func (vc *VC) reset() {
 	vc.declSet = map[string]bool{}
 	vc.defs = nil
 	vc.asserts = nil
+	vc.defAt = nil
+	vc.assertAt = nil
 	vc.axiomSet = map[string]bool{}
 	vc.obls = nil
 	vc.n = 0
@@ -156,7 +171,7 @@ func (vc *VC) reset() {
 	vc.iters = map[*ssa.Range]iterInfo{}
 	vc.exQuants = nil
 	for _, l := range vc.loopList {
-		l.pre, l.hdr, l.hdrLocal, l.hdrHeap, l.variant, l.backSts = nil, nil, nil, nil, nil, nil
+		l.pre, l.hdr, l.hdrLocal, l.hdrHeap, l.variant, l.backSts, l.backMarks = nil, nil, nil, nil, nil, nil, nil
 	}
 }
 
@@ -176,6 +191,47 @@ func (vc *VC) declareFun(name string, args []string, res string) {
 	vc.decls = append(vc.decls, fmt.Sprintf("(declare-fun %s (%s) %s)", name, strings.Join(args, " "), res))
 }
 
+// now: the logical time of a new definition or fact (the fresh-symbol counter, or the time of a loop's entry while that
+// loop is being closed: what is learnt about a loop then belongs to the program text before its body)
+func (vc *VC) note(s string) {
+	if vc.modelNotes == nil {
+		vc.modelNotes = map[string]bool{}
+	}
+	vc.modelNotes[s] = true
+}
+
+func (vc *VC) now() int {
+	if vc.atOverride > 0 {
+		return vc.atOverride
+	}
+	return vc.n
+}
+
+func (vc *VC) addDef(d def) {
+	vc.defs = append(vc.defs, d)
+	vc.defAt = append(vc.defAt, vc.now())
+}
+
+func (vc *VC) addAssert(t string) {
+	vc.asserts = append(vc.asserts, t)
+	at := vc.now()
+	// a closed axiom (no numbered constant of this run occurs in it) is timeless: it belongs to every obligation that uses
+	// its function symbols, whenever it happened to be needed first
+	m := map[string]bool{}
+	symbols(t, m)
+	closed := true
+	for sy := range m {
+		if symNumber(sy) >= 0 {
+			closed = false
+			break
+		}
+	}
+	if closed {
+		at = 0
+	}
+	vc.assertAt = append(vc.assertAt, at)
+}
+
 func (vc *VC) fresh(prefix, sort string) string {
 	vc.n++
 	name := fmt.Sprintf("%s!%d", sanitize(prefix), vc.n)
@@ -193,7 +249,7 @@ func (vc *VC) name(prefix, sort, term string) string {
 
 func (vc *VC) forceName(prefix, sort, term string) string {
 	c := vc.fresh(prefix, sort)
-	vc.defs = append(vc.defs, def{c, sort, term})
+	vc.addDef(def{c, sort, term})
 	return c
 }
 
@@ -202,7 +258,7 @@ func (vc *VC) axiom(key, term string) {
 		return
 	}
 	vc.axiomSet[key] = true
-	vc.asserts = append(vc.asserts, term)
+	vc.addAssert(term)
 }
 
 func (vc *VC) count(kind string) int {
@@ -222,6 +278,36 @@ func (vc *VC) pos(p token.Pos) token.Position {
 	return vc.W.Fset.Position(p)
 }
 
+// declaredInLoop: the variable is declared inside the body of some loop of the function under contract (typically a value
+// looked up for the element being processed, e.g. layer := layers[j])
+func (vc *VC) declaredInLoop(a *ssa.Alloc) bool {
+	if a.Parent() != vc.Fn {
+		return false
+	}
+	if vc.loopAssigned == nil {
+		// variables declared or assigned inside the body of some loop (with per-loop loop variables the declaration of
+		// "for _, layer := range ..." sits before the loop, the assignment inside it)
+		vc.loopAssigned = map[*ssa.Alloc]bool{}
+		for _, li := range vc.loopList {
+			for b := range li.Body {
+				for _, in := range b.Instrs {
+					switch x := in.(type) {
+					case *ssa.Alloc:
+						if b != li.Header {
+							vc.loopAssigned[x] = true
+						}
+					case *ssa.Store:
+						if al, ok := x.Addr.(*ssa.Alloc); ok {
+							vc.loopAssigned[al] = true
+						}
+					}
+				}
+			}
+		}
+	}
+	return vc.loopAssigned[a]
+}
+
 func (vc *VC) addObl(kind, name string, st *State, goal string, p token.Pos, tags []string, note string) {
 	if vc.dry {
 		return
@@ -229,18 +315,21 @@ func (vc *VC) addObl(kind, name string, st *State, goal string, p token.Pos, tag
 	if goal == T {
 		// trivially true: still counted, discharged syntactically
 	}
-	o := &Obl{Name: name, Kind: kind, PC: st.pc, Goal: goal, Pos: vc.pos(p), Tags: tags, Note: note}
+	o := &Obl{Name: name, Kind: kind, PC: st.pc, Goal: goal, Pos: vc.pos(p), Tags: tags, Note: note, Mark: vc.n}
 	if strings.Contains(goal, "(exists ") || kind == "pre" || kind == "idx" || kind == "slice" || kind == "site" || kind == "inv-step" {
 		for _, a := range sortedAllocs(st.locals) {
 			v := st.locals[a]
-			if kind == "inv-step" && a.Comment != "rangeindex" && !strings.Contains(goal, "(exists ") {
-				continue // loop steps: only the range index (the element just processed) is offered
+			if kind == "inv-step" && a.Comment != "rangeindex" && !strings.Contains(goal, "(exists ") && !vc.declaredInLoop(a) {
+				continue // loop steps: the range index (the element just processed) and the integers declared in loop bodies
 			}
 			if v.K == KInt && v.T != nil {
 				if _, _, ok := intRange(v.T); ok && len(o.Cands) < 12 {
 					o.Cands = append(o.Cands, v.S)
 					if a.Comment == "rangeindex" {
 						o.Cands = append(o.Cands, Add(v.S, "1"))
+					} else if kind == "inv-step" {
+						// secondary candidates: used only for goals without bound variables of their own
+						o.Secondary = append(o.Secondary, v.S)
 					}
 				}
 			}
@@ -304,6 +393,7 @@ type writeRec struct {
 	name   string
 	target string // object / region the update touches ("" = unknown: the whole array may change)
 	block  *ssa.BasicBlock
+	index  string // the single element of the target that is updated ("" = any element)
 }
 
 func (vc *VC) noteWrite(name, term string) {
@@ -316,7 +406,17 @@ func (vc *VC) noteWrite(name, term string) {
 			tgt = parts[2]
 		}
 	}
-	vc.writes = append(vc.writes, writeRec{name, tgt, vc.curBlock})
+	idx := ""
+	if tgt != "" {
+		// a single-element update  (store H t (store (select H t) idx v)): remember the element too
+		parts := splitSexp(term)
+		if strings.HasPrefix(parts[3], "(store ") {
+			if in := splitSexp(parts[3]); len(in) == 4 && in[1] == Sel(parts[1], parts[2]) {
+				idx = in[2]
+			}
+		}
+	}
+	vc.writes = append(vc.writes, writeRec{name, tgt, vc.curBlock, idx})
 }
 
 func arrSort(s string) string  { return "(Array Int " + s + ")" }
@@ -548,7 +648,7 @@ func (vc *VC) strLit(s string) string {
 	for _, oc := range others {
 		facts = append(facts, Ne(c, oc))
 	}
-	vc.asserts = append(vc.asserts, And(facts...))
+	vc.addAssert(And(facts...))
 	return c
 }
 
@@ -655,6 +755,12 @@ func (vc *VC) mergeStates(label string, sts []*State) *State {
 						panic(r)
 					}
 					// incompatible cell contents: the cell is dropped (dead or out of subset if used later)
+					if _, isPtr := derefType(k.Type()).Underlying().(*types.Pointer); isPtr {
+						// a pointer variable that holds nil on one path and the address of a slice element on another: after
+						// the join it is an unknown pointer whose pointee is a box of its own. Sound only while the element is
+						// not written through the slice as long as the pointer is in use (reported as an assumption)
+						vc.note("pointer variable " + k.Comment + " (" + vc.Fn.Name() + ") holds addresses of slice elements across a join: its pointee is modelled as a separate cell, i.e. the element is assumed not to be written while the pointer is live")
+					}
 				}
 			}()
 			out.locals[k] = mergeVals(vc, "m_"+k.Comment, conds, vs)
